@@ -16,7 +16,10 @@ LEVEL_TEXT = ("Proof, partial (P). Carried by theorems, for every byte string: s
               "quoteAndEscapeString = encodeBytesSQL: all nine escapes, unknown escapes, doubled quotes), hex_roundtrip (0x literals for binary columns), "
               "csv_field_roundtrip (what writeCsvRow writes for a field — quoted or not, NULL vs empty string, embedded quotes / commas / line feeds / "
               "leading white space of every Unicode White_Space rune — is read back by parseField / parseQuotedField as the same field, whatever follows). "
-              "Refuted at record level (witnesses replayed on the real code every run): a value containing CR LF comes back with LF only (readLine normalises "
+              "Per-type value formatting (interfaceValueAsSqlString classes): int_fmt_roundtrip (every integer) and value_fmt_roundtrip_partial (NULL, "
+              "integers, quoted text, 0x binary, quoted temporal text free of quotes/backslashes read back as the same value); refuted for the BIT class "
+              "(raw value bytes: not a literal, or ASCII digits denoting another value). Decimal / float text and the date/time formatters themselves "
+              "are not modelled. Refuted at record level (witnesses replayed on the real code every run): a value containing CR LF comes back with LF only (readLine normalises "
               "CR LF inside quoted fields); a record that is a single NULL is written as an empty line and skipped by the reader. Resting on correspondence "
               "only: value formatting per column type, CREATE TABLE text, the JSON/Parquet writers, the SQL engine's parsing of the dump — checked by dumping "
               "generated tables (SHOW CREATE TABLE + sqlfmt.SqlRowAsInsertStmt; CSV writer/reader) into fresh databases and comparing every row and the schema text.")
@@ -24,8 +27,11 @@ LEVEL_NOTE = ("Trusted: Coq kernel, Go harness + Python glue. Modelled, not veri
               "(modelled as the White_Space rune table on raw bytes), BOM handling. `dolt dump` itself is a CLI command: the harness uses the same "
               "library calls (sqlfmt row formatting, csv writer) in-process; mvdata/Parquet/JSON file writers are not exercised.")
 THEOREMS = ["sql_string_roundtrip", "hex_roundtrip", "csv_field_roundtrip (generic in the space predicate)", "csv_field_roundtrip_std",
-            "csv_record_roundtrip_refuted_crlf", "csv_record_roundtrip_refuted_single_null"]
-REFUTED = ["csv_record_roundtrip (full): csv_record_roundtrip_refuted_crlf, csv_record_roundtrip_refuted_single_null"]
+            "int_fmt_roundtrip", "value_fmt_roundtrip_partial (NULL / integer / quoted text / 0x binary / quoted temporal; BIT excluded)",
+            "oracle_on_model_str", "model_agrees_on_model_str",
+            "csv_record_roundtrip_refuted_crlf", "csv_record_roundtrip_refuted_single_null", "value_fmt_roundtrip_refuted_bit"]
+REFUTED = ["csv_record_roundtrip (full): csv_record_roundtrip_refuted_crlf, csv_record_roundtrip_refuted_single_null",
+           "value_fmt_roundtrip (full): value_fmt_roundtrip_refuted_bit (BIT values are emitted as raw bytes)"]
 RULE = ("str: byte strings biased to quotes, backslashes, NUL, ctrl-Z, escape look-alikes (\\q \\0 \\Z \\% \\_), invalid UTF-8; csv: records of 1-5 optional "
         "fields with quotes, commas, CR, LF, CR LF, leading ASCII / Unicode white space, the Postgres terminator; table: 2-6 columns over integer, decimal, "
         "float, char/varchar/text, binary/varbinary/blob, date/time, enum/set, json, bit, bool types with boundary and nasty values; distinct by content")
